@@ -3,7 +3,8 @@
    (whatshap/vcf.py); the model is tied to the code by harness/props/C04.py.  Everything is stated for
    an arbitrary input file (list of abstract records), an arbitrary configuration and an arbitrary
    sequence of write() calls (`plan`) that follows the chromosome runs of the input, as run_whatshap
-   produces it.  `ru` ranges over the current rules of the code and the repaired ones. *)
+   produces it.  `fix_rules` is the model of the code as it is; `orig_rules` the code before the repairs
+   9ec9805 / 3231061 (kept because the C09 refutation witnesses refer to it); the general theorems hold for both. *)
 From Coq Require Import ZArith List Bool Arith.
 From WH.Model Require Import VcfRecord.
 From WH.Proofs Require Import VcfRecordProofs.
@@ -23,7 +24,7 @@ Definition C04_write_stream_conserves_full_statement : Prop :=
    symbolic ALT and no END gets END=POS+len(REF)-1 appended). Witness: one such record, nothing phased. *)
 Theorem C04_write_stream_conserves_refuted :
   exists cf plan input out,
-    map fst plan = runs input /\ phase_writer cf cur_rules plan input = Ok out /\
+    map fst plan = runs input /\ phase_writer cf fix_rules plan input = Ok out /\
     conserves fixed_eqb input out = false.
 Proof.
   exists (mkCfg TagPS false false true), [(7, [])],
@@ -60,25 +61,47 @@ Proof. exact writer_error_is_keyerror. Qed.
 Print Assumptions C04_writer_error_is_keyerror.
 
 (* --- write_frames ------------------------------------------------------------------------------ *)
-(* a call of a non-target sample, and every call of a write() without targets (non-selected
-   chromosome), is unchanged; in a target call the non-phase FORMAT fields are unchanged. *)
+(* the boolean frame predicate the check evaluates on (input, real output): a call of a non-target sample,
+   and every call of a write() without targets (non-selected chromosome), is unchanged; in a target call
+   every FORMAT value other than the phase encoding (GT, PS, HP, PQ) is unchanged and GT stays present. *)
 Theorem C04_write_frames :
   forall cf ru plan input out,
-    ru = cur_rules \/ ru = fix_rules ->
+    ru = orig_rules \/ ru = fix_rules ->
     Forall (fun e => NoDup (map t_sample (snd e))) plan ->
     map fst plan = runs input -> phase_writer cf ru plan input = Ok out ->
     frames (annotate plan input) out = true.
 Proof.
-  intros cf ru plan input out [-> | ->]; [apply write_frames; exact cur_rules_ok|apply write_frames; exact fix_rules_ok].
+  intros cf ru plan input out [-> | ->]; [apply write_frames; exact orig_rules_ok|apply write_frames; exact fix_rules_ok].
 Qed.
 Print Assumptions C04_write_frames.
 
-(* the current code, field by field: in a target call only GT (order / separator; the alleles only in
-   the genotype-change branch, see C04_alleles_preserved) and the key of the chosen tag can differ *)
+(* the code as it is, field by field: in a target call only the phase encoding changes -- GT (separator
+   and order; the alleles only in the genotype-change branch, see C04_alleles_preserved), PS, HP, PQ.
+   Every other FORMAT field is unchanged; PQ is cleared; the key of the other encoding is cleared (PS under
+   --tag HP; HP under --tag PS: '.' if the record has the key).  Calls of non-target samples and all calls
+   of a write() without targets (non-selected chromosome) are identical. *)
 Theorem C04_write_frames_fields :
   forall cf plan input out,
     Forall (fun e => NoDup (map t_sample (snd e))) plan ->
-    map fst plan = runs input -> phase_writer cf cur_rules plan input = Ok out ->
+    map fst plan = runs input -> phase_writer cf fix_rules plan input = Ok out ->
+    Forall2 (fun a o =>
+       length (calls o) = length (calls (fst a)) /\
+       (snd a = [] -> calls o = calls (fst a) /\ ps_key o = ps_key (fst a)) /\
+       forall i c c', nth_error (calls (fst a)) i = Some c -> nth_error (calls o) i = Some c' ->
+         (is_target (snd a) i = false -> c' = c) /\
+         (is_target (snd a) i = true ->
+            other c' = other c /\ (gt c' = None <-> gt c = None) /\ pq c' = None /\
+            (tag cf = TagPS -> hp c' = None \/ hp c' = Some [HPdot]) /\
+            (tag cf = TagHP -> ps c' = None)))
+      (annotate plan input) out.
+Proof. exact write_frames_fix. Qed.
+Print Assumptions C04_write_frames_fields.
+
+(* the code before the repair 9ec9805 left PQ and the key of the other encoding in place *)
+Theorem C04_write_frames_fields_original_code :
+  forall cf plan input out,
+    Forall (fun e => NoDup (map t_sample (snd e))) plan ->
+    map fst plan = runs input -> phase_writer cf orig_rules plan input = Ok out ->
     Forall2 (fun a o =>
        length (calls o) = length (calls (fst a)) /\
        (snd a = [] -> calls o = calls (fst a) /\ ps_key o = ps_key (fst a)) /\
@@ -88,33 +111,33 @@ Theorem C04_write_frames_fields :
          (tag cf = TagPS -> hp c' = hp c) /\ (tag cf = TagHP -> ps c' = ps c))
       (annotate plan input) out.
 Proof. exact write_frames_cur. Qed.
-Print Assumptions C04_write_frames_fields.
+Print Assumptions C04_write_frames_fields_original_code.
 
 (* --- alleles_preserved ------------------------------------------------------------------------ *)
 (* Hypothesis (C01/C05's business, taken as given here): wherever a target has an allowed super-read
    column, its alleles are the multiset of the input genotype.  Then no genotype changes. *)
 Theorem C04_alleles_preserved :
   forall cf ru plan input out,
-    ru = cur_rules \/ ru = fix_rules ->
+    ru = orig_rules \/ ru = fix_rules ->
     Forall (fun e => NoDup (map t_sample (snd e))) plan ->
     map fst plan = runs input -> phase_writer cf ru plan input = Ok out ->
     superreads_agree cf (annotate plan input) = true ->
     alleles_kept input out = true.
 Proof.
-  intros cf ru plan input out [-> | ->]; [apply alleles_preserved; exact cur_rules_ok|apply alleles_preserved; exact fix_rules_ok].
+  intros cf ru plan input out [-> | ->]; [apply alleles_preserved; exact orig_rules_ok|apply alleles_preserved; exact fix_rules_ok].
 Qed.
 Print Assumptions C04_alleles_preserved.
 
 (* --- only_het_supported_phased ---------------------------------------------------------------- *)
 Theorem C04_only_het_supported_phased :
   forall cf ru plan input out,
-    ru = cur_rules \/ ru = fix_rules ->
+    ru = orig_rules \/ ru = fix_rules ->
     Forall (fun e => NoDup (map t_sample (snd e))) plan ->
     map fst plan = runs input -> phase_writer cf ru plan input = Ok out ->
     only_het_supported cf (annotate plan input) out = true.
 Proof.
   intros cf ru plan input out [-> | ->];
-    [apply only_het_supported_phased; exact cur_rules_ok|apply only_het_supported_phased; exact fix_rules_ok].
+    [apply only_het_supported_phased; exact orig_rules_ok|apply only_het_supported_phased; exact fix_rules_ok].
 Qed.
 Print Assumptions C04_only_het_supported_phased.
 
@@ -123,7 +146,7 @@ Print Assumptions C04_only_het_supported_phased.
    the previously processed record, and is phased in the target's own components and super-reads *)
 Theorem C04_only_het_supported_phased_records :
   forall cf ru plan input out,
-    ru = cur_rules \/ ru = fix_rules ->
+    ru = orig_rules \/ ru = fix_rules ->
     Forall (fun e => NoDup (map t_sample (snd e))) plan ->
     map fst plan = runs input -> phase_writer cf ru plan input = Ok out ->
     Forall2 (fun a o => exists prev,
@@ -134,7 +157,7 @@ Theorem C04_only_het_supported_phased_records :
       (annotate plan input) out.
 Proof.
   intros cf ru plan input out [-> | ->];
-    [apply only_het_supported_phased_records; exact cur_rules_ok
+    [apply only_het_supported_phased_records; exact orig_rules_ok
     |apply only_het_supported_phased_records; exact fix_rules_ok].
 Qed.
 Print Assumptions C04_only_het_supported_phased_records.
@@ -171,7 +194,7 @@ Proof.
 Qed.
 
 Example C04_example_output :
-  phase_writer ex_cf cur_rules ex_plan ex_input = Ok
+  phase_writer ex_cf fix_rules ex_plan ex_input = Ok
   [ mkRec 7 10 [1;2;3;4;5] [] 1 [1] false true
       [mkCall (Some [Some 1; Some 0]%nat) true (Some 11) None None [(21, 22)]; ex_call 1 0 true];
     mkRec 7 20 [1;2;3;4;5] [] 1 [1;1] false false
